@@ -22,7 +22,8 @@ ASSUME \A s \in DOMAIN Shapes : Len(Shapes[s].parent) \in NodeIds
 \* the lock of the very role another update is merging into.
 Held(k, n) == \E t \in Threads : thr[t].pc = "computed" /\ thr[t].kind = k /\ thr[t].at = n
 ChildHeld(t) == \E c \in Nodes : Parent(c) = thr[t].at /\ Held(thr[t].kind, c)
-G_MergeEnter(t) == ~Auto /\ thr[t].pc = "call" /\ ~ChildHeld(t) /\ MergeEnter(t)
+G_Sample(t) == ~Auto /\ Sample(t)
+G_MergeEnter(t) == ~Auto /\ thr[t].pc \in {"call", "sampled"} /\ ~ChildHeld(t) /\ MergeEnter(t)
 G_MergeUnblock(t) == MergeUnblock(t)
 G_MergeAssign(t) == ~Auto /\ MergeAssign(t)
 G_ReadCache(t) == ~Auto /\ thr[t].pc = "merged" /\ ~Held(thr[t].kind, thr[t].at) /\ ReadCache(t)
@@ -31,6 +32,7 @@ G_Deliver(t) == ~Auto /\ Deliver(t)
 GenNext ==
   \/ \E t \in Threads, l \in NodeIds, k \in Kinds, v \in TaskStates \cup CallStates \cup LeafStatuses :
         G_Begin(t, l, k, v)
+  \/ \E t \in Threads : G_Sample(t)
   \/ \E t \in Threads : G_MergeEnter(t)
   \/ \E t \in Threads : G_MergeUnblock(t)
   \/ \E t \in Threads : G_MergeAssign(t)
